@@ -46,11 +46,15 @@ Definition pm_max_port := 65535.
 Fixpoint zrange (start : Z) (n : nat) : list Z :=
   match n with O => [] | S k => start :: zrange (start + 1) k end.
 
-(* types.PortsRange{Start, End, Single} *)
+(* types.PortsRange{Start, End, Single}.  NewManager keeps only bindable ports: a Single in 1..MaxPort,
+   a range clamped to max(Start, MinPort) .. min(End, MaxPort) *)
 Definition prange := (Z * Z * Z)%type.
 Definition pr_expand (r : prange) : list Z :=
   let '(st, en, si) := r in
-  if 0 <? si then [si] else zrange st (Z.to_nat (en - st + 1)).
+  if 0 <? si then (if si <=? pm_max_port then [si] else [])
+  else let lo := Z.max st pm_min_port in
+       let hi := Z.min en pm_max_port in
+       zrange lo (Z.to_nat (hi - lo + 1)).
 
 (* the ports NewManager puts into freePorts, in insertion order (duplicates possible here) *)
 Definition pm_allowed (ranges : list prange) : list Z :=
@@ -95,8 +99,9 @@ Definition pm_acquire (probe : Z -> bool) (choice : option Z) (s : pm) (name : p
   if port =? 0 then
     match rget name (pm_res s) with
     | Some rp =>
-        (* reserved path: only the OS probe is consulted, not freePorts *)
-        if probe rp then Some (pm_take s name rp, POk rp) else pm_random probe choice s name
+        (* reserved path: the remembered port must still be free in the manager's own books and
+           bindable right now *)
+        if zmem rp (pm_free s) && probe rp then Some (pm_take s name rp, POk rp) else pm_random probe choice s name
     | None => pm_random probe choice s name
     end
   else if zmem port (pm_free s) then
